@@ -370,7 +370,9 @@ func (g *G) fread(c *fctx) *sx.N {
 			func() *sx.N { return sx.Y("nil?") },
 			func() *sx.N { return sx.Y("not") },
 			func() *sx.N { return sx.Y("true?") },
-			func() *sx.N { return sx.Call("lambda", sx.L(sx.Y("x")), sx.Call("verif:probe", sx.QY("pr"), sx.Y("x"))) },
+			func() *sx.N {
+				return sx.Call("lambda", sx.L(sx.Y("x")), sx.Call("verif:probe", sx.QY("pr"), sx.Y("x")))
+			},
 			func() *sx.N { return sx.Call("lambda", sx.L(sx.Y("x")), sx.Call("if", sx.Y("x"), sx.Nil(), sx.I(0))) },
 			func() *sx.N { return sx.Call("lambda", sx.L(sx.Y("x")), sx.Call("or", sx.Y("x"), sx.Y("false"))) },
 		})()
